@@ -78,8 +78,19 @@ func buildTree(root string, r *core.Rand, deep bool) []node {
 		switch r.Intn(10) {
 		case 0, 1, 2, 3:
 			if os.Mkdir(full, os.FileMode(0o700|r.Intn(0o100))) == nil {
+				// some directories carry mode bits beyond the nine permission bits (a /tmp-like sticky directory, a
+				// setgid team directory): they are directories all the same
+				if r.Intn(3) == 0 {
+					special := []os.FileMode{os.ModeSticky, os.ModeSetgid, os.ModeSetuid, os.ModeSticky | os.ModeSetgid}[r.Intn(4)]
+					_ = os.Chmod(full, os.FileMode(0o700|r.Intn(0o100))|special)
+				}
 				nodes = append(nodes, node{rel, "dir"})
 				dirs = append(dirs, rel)
+			}
+		case 6:
+			// a named pipe: neither directory nor symlink (never opened here)
+			if syscall.Mkfifo(full, 0o640) == nil {
+				nodes = append(nodes, node{rel, "fifo"})
 			}
 		case 4:
 			// symlink to something in the tree (relative target)
@@ -104,6 +115,9 @@ func buildTree(root string, r *core.Rand, deep bool) []node {
 			}
 		default:
 			if os.WriteFile(full, r.Bytes(r.Intn(3000)), os.FileMode(0o600|r.Intn(0o200))) == nil {
+				if r.Intn(5) == 0 {
+					_ = os.Chmod(full, os.FileMode(0o600|r.Intn(0o200))|[]os.FileMode{os.ModeSetuid, os.ModeSetgid, os.ModeSticky}[r.Intn(3)])
+				}
 				nodes = append(nodes, node{rel, "file"})
 			}
 		}
